@@ -72,7 +72,15 @@ pub fn campaign(ctx: &mut Ctx, target: &str, runs_per_job: u64, jobs: usize, max
         let _ = std::fs::create_dir_all(&arts);
         // libFuzzer treats -seed=0 as "random": remap
         let seed = (mix64(ctx.seed ^ (j as u64) << 32 ^ hash_str(target)) % 0x7fff_fffe) + 1;
-        let child = Command::new(fuzz_bin(target))
+        // The job is started through a shell that forks once more: Linux carries the peak RSS of the
+        // spawning process over fork+exec (getrusage ru_maxrss, which libFuzzer's -rss_limit_mb
+        // reads), so after a memory-hungry stream of this check every job would stop at once with
+        // a spurious "out-of-memory" on an innocent input.  The extra fork starts from the shell's
+        // small address space and a fresh counter.
+        let child = Command::new("/bin/sh")
+            .arg("-c")
+            .arg("\"$0\" \"$@\"; exit $?")
+            .arg(fuzz_bin(target))
             .arg(&corpus)
             .arg(format!("-runs={}", runs_per_job))
             .arg(format!("-seed={}", seed))
@@ -97,9 +105,12 @@ pub fn campaign(ctx: &mut Ctx, target: &str, runs_per_job: u64, jobs: usize, max
     let mut corpus_files = 0u64;
     let mut artifacts: Vec<PathBuf> = vec![];
     let mut oracle_lines: Vec<String> = vec![];
-    for (_, c, corpus, arts) in children {
+    let mut ended_early = 0u64;
+    let mut early_tails: Vec<String> = vec![];
+    for (j, c, corpus, arts) in children {
         if let Ok(out) = c.wait_with_output() {
             let e = String::from_utf8_lossy(&out.stderr);
+            let mut done = false;
             for l in e.lines() {
                 if let Some(v) = l.strip_prefix("stat::number_of_executed_units:") {
                     execs += v.trim().parse::<u64>().unwrap_or(0);
@@ -107,6 +118,15 @@ pub fn campaign(ctx: &mut Ctx, target: &str, runs_per_job: u64, jobs: usize, max
                 if l.starts_with("ORACLE-FAILURE") {
                     oracle_lines.push(l.chars().take(300).collect());
                 }
+                if l.starts_with("Done ") {
+                    done = true;
+                }
+            }
+            if !done {
+                // the job stopped before its run count: keep why (crash, timeout, out of memory, signal)
+                ended_early += 1;
+                let tail: Vec<&str> = e.lines().filter(|l| !l.starts_with('#') && !l.starts_with("stat::") && !l.starts_with('"')).rev().take(8).collect();
+                early_tails.push(format!("job {} status {:?}: {}", j, out.status.code(), tail.into_iter().rev().collect::<Vec<_>>().join(" | ").chars().take(700).collect::<String>()));
             }
         }
         corpus_files += std::fs::read_dir(&corpus).map(|d| d.count() as u64).unwrap_or(0);
@@ -121,11 +141,23 @@ pub fn campaign(ctx: &mut Ctx, target: &str, runs_per_job: u64, jobs: usize, max
     let mut failure = None;
     let mut unconfirmed = 0u64;
     let mut other_props: Vec<String> = vec![];
+    let mut kinds: BTreeMap<String, u64> = BTreeMap::new();
     for a in &artifacts {
         let Ok(bytes) = std::fs::read(a) else { continue };
         let r = catch(|| run_target(target, &bytes));
         match r {
-            Ok(Ok(())) => unconfirmed += 1,
+            Ok(Ok(())) => {
+                // not a failure of any oracle in the stable build (a timeout, an out-of-memory stop,
+                // a slow-unit note, ...): inconclusive, never a violation; kept for inspection
+                unconfirmed += 1;
+                let keep = format!("{}/fuzz-unconfirmed", verif_dir());
+                let _ = std::fs::create_dir_all(&keep);
+                if let Some(n) = a.file_name().and_then(|n| n.to_str()) {
+                    let _ = std::fs::write(format!("{}/{}-{}-{}", keep, ctx.prop, target, n), &bytes);
+                }
+                let kind = a.file_name().and_then(|n| n.to_str()).and_then(|n| n.split('-').next()).unwrap_or("other").to_string();
+                *kinds.entry(format!("unconfirmed_{}", kind.replace("slow", "slow_unit"))).or_insert(0u64) += 1;
+            }
             Ok(Err((p, f))) => {
                 if p == ctx.prop {
                     if failure.is_none() {
@@ -146,6 +178,17 @@ pub fn campaign(ctx: &mut Ctx, target: &str, runs_per_job: u64, jobs: usize, max
     classes.insert("final_corpus_files".to_string(), corpus_files);
     classes.insert("crash_artifacts".to_string(), artifacts.len() as u64);
     classes.insert("artifacts_not_reproduced_in_stable_build".to_string(), unconfirmed);
+    classes.insert("jobs_ended_before_run_count".to_string(), ended_early);
+    for (k, v) in kinds {
+        classes.insert(k, v);
+    }
+    if !early_tails.is_empty() {
+        eprintln!("[{}] libFuzzer {}: {} of {} jobs ended before their run count (inconclusive, not a violation unless an artifact is confirmed below)", ctx.prop, target, ended_early, jobs);
+        for t in early_tails.iter().take(3) {
+            eprintln!("    {}", t);
+        }
+        ctx.extra.insert(format!("{}_jobs_ended_early", name), json!(early_tails.iter().take(4).collect::<Vec<_>>()));
+    }
     if !other_props.is_empty() {
         ctx.extra.insert(format!("{}_failures_of_other_properties", name), json!(other_props));
     }
